@@ -340,6 +340,10 @@ def image (m : Mode) (L : Nat) (ps : List APart) (i : Nat) (p : APart) (e : Elem
 /-- the time points of a part: every start and end, once, increasing -/
 def points (es : List Elem) : List Nat := uniq (es.map (·.start) ++ es.filterMap (·.stop))
 
+/-- ... of a part that also holds objects by their end only (`tails`): their ends are time points too -/
+def pointsWith (es tails : List Elem) : List Nat :=
+  uniq (es.map (·.start) ++ es.filterMap (·.stop) ++ tails.filterMap (·.stop))
+
 /-- `e.duration` -/
 def durOf (e : Elem) : Option Int := e.stop.map fun (s : Nat) => (s : Int) - (e.start : Int)
 
